@@ -21,6 +21,7 @@ struct sk_kernel *K;
 size_t sk_arena_size;
 int (*sk_env_pull)(void);
 void (*sk_yield_hook)(int kind);
+void (*sk_on_fork)(int proc);      /* driver: a child was just created for K->cur_handle (its scripted behaviour can be attached at once) */
 void (*sk_on_term_later)(int handle); /* free-running mode: a child that dies some time after SIGTERM received it */ /* C20: called at the entry of every kernel-relevant call made by the parent process */
 void (*sk_on_hang)(const char *what);
 int sk_cur = 0;  /* process index this REAL process is executing as (0 = parent) */
@@ -706,6 +707,7 @@ pid_t __wrap_fork(void)
   c->state = PS_FORKING;
   c->handle = K->cur_handle;
   c->term = TERM_IGN;
+  if (sk_on_fork) sk_on_fork(pi);
   sk_logev(LK_FORK, c->pid, pi, 0, c->pid);
   fflush(NULL);
   pid_t real = __real_fork();
